@@ -21,6 +21,15 @@ Steps of a history:  render(size_i, focus) / rows(size_i) at the root, every pub
 widget in the tree (by path), keypress / mouse_event delivered at the root the way MainLoop does,
 and garbage collection (drop the held canvases except the latest / all of them, then gc.collect()).
 
+Garbage-collection family ("/gc-histories" checks).  The statement quantifies over "garbage collection of unreferenced
+canvases" as a history step.  Whether a collection is visible depends on what the weak-reference callbacks
+(CanvasCache.cleanup) remove, and that shows only in histories of a particular shape, longer than the exhaustive bound
+above: render A (canvas held, as a Screen holds the last one) -> [edit a descendant] -> render B under ANOTHER cache key
+for the root (focus flipped / other width / a vertical resize: same columns, one more row) which leaves the cache key of
+descendants unchanged (flow children of a box, ignore_focus widgets, children that are not in focus) -> drop held canvases
+and gc.collect() -> edit a descendant -> observe render B, render A (and rows).  These 4- and 5-step histories are
+enumerated exhaustively over (tree, key pair A->B, which canvases are dropped, edit) — see gc_family().
+
 Readings of the statement fixed here:
  * "public mutators" = methods and property setters.  Assigning a plain public attribute that has no
    setter (Padding.left, Filler.top, Divider.div_char, BoxAdapter.height, GridFlow.h_sep, Overlay.top_w,
@@ -803,7 +812,9 @@ def paths(spec, pre=()):
 
 
 def sizes_for(typ):
-    return [(9,), (14,)] if typ == "flow" else [(10, 6), (15, 9)]
+    # box roots, index 2: a vertical resize of size 0 (same columns, one more row): the root and every box descendant get a
+    # new cache key while flow descendants keep theirs. Only the garbage-collection family uses it.
+    return [(9,), (14,)] if typ == "flow" else [(10, 6), (15, 9), (10, 7)]
 
 
 def alphabet(spec, tier):
@@ -885,6 +896,8 @@ class World:
         if kindn == "gc":
             if st[1] == "keep_last":
                 del self.held[:-1]
+            elif st[1] == "keep_first":
+                del self.held[1:]
             else:
                 del self.held[:]
             gc.collect()
@@ -943,9 +956,10 @@ def _fmt(o):
     return {"cols": cols, "rows": rows, "cursor": list(cursor) if cursor else None, "text": ["".join(seg[1] for seg in ln) for ln in lines], "attr": [[seg[0] for seg in ln] for ln in lines]}
 
 
-def evaluate(spec, hist, tier="thorough"):
-    """Run one history in both worlds.  Returns dict(trivial, render=[(ob, a, b)], rows=[...], handed_bad, step_exc)."""
-    obs = observations(spec, tier)
+def evaluate(spec, hist, tier="thorough", obs=None):
+    """Run one history in both worlds.  Returns dict(trivial, render=[(ob, a, b)], rows=[...], handed_bad, step_exc).
+    obs: the observations asked at the end (default: observations(spec, tier))."""
+    obs = observations(spec, tier) if obs is None else list(obs)
     A = World(spec)
     try:
         A.run_history(hist)
@@ -989,8 +1003,8 @@ def _first_diff(triples):
     return None
 
 
-def fails(spec, hist, clause, tier="thorough"):
-    r = evaluate(spec, hist, tier)
+def fails(spec, hist, clause, tier="thorough", obs=None):
+    r = evaluate(spec, hist, tier, obs)
     if r["trivial"]:
         return False
     if clause == "handed-out-unchanged":
@@ -998,7 +1012,7 @@ def fails(spec, hist, clause, tier="thorough"):
     return _first_diff(r["render" if clause == "cached-equals-fresh" else "rows"]) is not None
 
 
-def shrink(spec, hist, clause, tier="thorough"):
+def shrink(spec, hist, clause, tier="thorough", obs=None):
     """Greedy one-step-removal minimisation (each candidate is re-run against the real code)."""
     hist = list(hist)
     changed = True
@@ -1006,7 +1020,7 @@ def shrink(spec, hist, clause, tier="thorough"):
         changed = False
         for i in range(len(hist)):
             cand = hist[:i] + hist[i + 1 :]
-            if fails(spec, cand, clause, tier):
+            if fails(spec, cand, clause, tier, obs):
                 hist = cand
                 changed = True
                 break
@@ -1030,8 +1044,10 @@ def signature(spec, hist):
     return "+".join(sig) if sig else "renders-only:" + spec_str(spec)
 
 
-def _detail(spec, hist, clause, r, minimal=None, tier="thorough"):
+def _detail(spec, hist, clause, r, minimal=None, tier="thorough", obs=None):
     d = {"obs_tier": tier, "tree": spec, "history": [list(map(_j, st)) for st in hist], "sizes": [list(s) for s in sizes_for(_typ_of(spec))], "clause": clause}
+    if obs is not None:
+        d["observations"] = [list(map(_j, ob)) for ob in obs]
     if minimal is not None:
         d["minimal_history"] = [list(map(_j, st)) for st in minimal]
         d["signature"] = signature(spec, minimal)
@@ -1172,6 +1188,10 @@ def select_trees(tier, seed):
             c = by_mid.get(mid, [])
             for t in r.sample(c, min(1, len(c))):
                 plan.append((t, "quick", 2, "full"))
+                plan.append((t, "quick", 5, "gc"))
+        # the garbage-collection family on every root+leaf tree, and seeded longer histories with several collections
+        plan += [(t, "quick", 5, "gc") for t in d1]
+        plan += [(t, "quick", 7, ("gcsample", 12)) for t in d1]
         return plan
     d3 = trees_of_depth(3)
     plan += [(t, "thorough", 3, "full") for t in d0]
@@ -1197,6 +1217,14 @@ def select_trees(tier, seed):
     for t in r.sample(d3, min(len(d3), 100)):
         plan.append((t, "quick", 2, "full"))
         plan.append((t, "thorough", 4, ("sample", 100)))
+    # the garbage-collection family: the thorough family on leaves alone and root+leaf trees, the quick one on the deeper trees
+    plan += [(t, "thorough", 5, "gc") for t in d0 + d1]
+    plan += [(t, "thorough", 8, ("gcsample", 80)) for t in d1]
+    seen_gc = set()
+    for t, _a, _l, mode in list(plan):
+        if mode == "full" and len(spec_str(t).split("(")) > 2 and spec_str(t) not in seen_gc:
+            seen_gc.add(spec_str(t))
+            plan.append((t, "quick", 5, "gc"))
     return plan
 
 
@@ -1214,6 +1242,62 @@ def admissible(h):
     if any(h[i] == h[i + 1] and h[i][0] in ("render", "rows", "gc") for i in range(L - 1)):
         return False
     return True
+
+
+def gc_alphabet(spec, tier):
+    """Reduced alphabet of the seeded garbage-collection histories: renders under the root cache keys of gc_family
+    (incl. the vertical resize for box roots), the three ways of dropping held canvases + gc.collect(), the mutators of
+    the non-root nodes (thorough: of every node), keys and mouse."""
+    typ = _typ_of(spec)
+    renders = [("render", 0, True), ("render", 0, False), ("render", 1, True)] + ([("render", 2, True)] if typ == "box" else [])
+    drops = [("gc", "keep_last"), ("gc", "keep_first"), ("gc", "drop_all")]
+    edits = [a for a in alphabet(spec, tier) if (a[0] == "mut" and (a[1] or tier != "quick")) or a[0] in ("key", "mouse")]
+    return renders, drops, edits
+
+
+def gc_sampled(spec, tier, length, n, seed):
+    """n seeded histories of `length` steps. Shape: render A, [edit], render B (B != A), [edit or render], drop+gc, edit, then
+    free steps (renders / drops / edits with probabilities 3:2:3, no immediate repetition of a render or drop) up to the
+    length: a collection with more than one root canvas alive, followed by an edit, then further renders, collections and
+    edits in any order."""
+    renders, drops, edits = gc_alphabet(spec, tier)
+    if not edits:
+        return
+    s = 0
+    for ch in spec_str(spec):
+        s = (s * 131 + ord(ch)) % 2147483647
+    r = rng(seed * 11 + s + 5)
+    pick = lambda pool: pool[r.randrange(len(pool))]  # noqa: E731
+    seen = set()
+    for _ in range(n):
+        for _try in range(30):
+            h = [pick(renders)]
+            if r.random() < 0.6:
+                h.append(pick(edits))
+            h.append(pick([x for x in renders if x != h[0]]))
+            if r.random() < 0.3:
+                h.append(pick(edits + [x for x in renders if x != h[-1]]))
+            h.append(pick(drops))
+            h.append(pick(edits))
+            while len(h) < length:
+                x = r.randrange(8)
+                st = pick(renders if x < 3 else drops if x < 5 else edits)
+                if st == h[-1] and st[0] in ("render", "gc"):
+                    continue
+                h.append(st)
+            key = repr(h)
+            if key not in seen:
+                seen.add(key)
+                yield tuple(h)
+                break
+
+
+def gc_observations(spec, tier):
+    """Observations of the seeded garbage-collection histories: the default ones plus the vertical-resize render."""
+    obs = observations(spec, tier)
+    if _typ_of(spec) == "box":
+        obs = [*obs, ("render", 2, True)]
+    return obs
 
 
 def histories(spec, alpha_tier, max_len, mode, seed):
@@ -1244,6 +1328,50 @@ def histories(spec, alpha_tier, max_len, mode, seed):
                     break
 
 
+def gc_family(spec, tier):
+    """The garbage-collection family (see the module docstring): yields (history, observations).
+
+        [render A, render B, drop+gc, edit]            (4 steps)   edit: every mutator of a non-root node, keys, mouse
+        [render A, edit1, render B, drop+gc, edit2]    (5 steps)   edit1: every mutator of a non-root node; edit2 = edit1 again
+                                                                   (its next value)
+
+    A -> B (size index, focus), quick: (0,T)->(0,F), (0,F)->(0,T) (focus flip: same size), (0,T)->(1,T) (other width),
+    box roots also (0,T)->(2,T) (vertical resize, see sizes_for); drop = all held canvases but the latest.
+    thorough adds the reverse pairs, (1,T)->(1,F), (0,F)->(1,T) / (0,F)->(2,F), (2,T)->(1,T); drop in {all but the latest,
+    all but the first, all}; the mutators of the root as edits; edit2 also = the first mutator of edit1's node.
+    Observed at the end: render B, render A, and rows at B for flow roots."""
+    typ = _typ_of(spec)
+    quick = tier == "quick"
+    T, F = True, False
+    pairs = [((0, T), (0, F)), ((0, F), (0, T)), ((0, T), (1, T))]
+    if typ == "box":
+        pairs.append(((0, T), (2, T)))
+    if not quick:
+        pairs += [((1, T), (0, T)), ((1, T), (1, F)), ((0, F), (1, T))]
+        if typ == "box":
+            pairs += [((2, T), (0, T)), ((0, F), (2, F)), ((2, T), (1, T))]
+    drops = ["keep_last"] if quick else ["keep_last", "keep_first", "drop_all"]
+    alpha = alphabet(spec, tier)
+    muts = [a for a in alpha if a[0] == "mut" and (a[1] or not quick)]
+    inputs = [a for a in alpha if a[0] in ("key", "mouse")]
+    first_of_node = {}
+    for m in muts:
+        first_of_node.setdefault(tuple(m[1]), m)
+    for (sa, fa), (sb, fb) in pairs:
+        ra, rb = ("render", sa, fa), ("render", sb, fb)
+        obs = [rb, ra] + ([("rows", sb, fb)] if typ == "flow" else [])
+        for d in drops:
+            g = ("gc", d)
+            for m in muts + inputs:
+                yield (ra, rb, g, m), obs
+            for m1 in muts:
+                seconds = [m1]
+                if not quick and first_of_node[tuple(m1[1])] != m1:
+                    seconds.append(first_of_node[tuple(m1[1])])
+                for m2 in seconds:
+                    yield (ra, m1, rb, g, m2), obs
+
+
 MAX_FAIL_PER_TREE = 6
 
 
@@ -1253,7 +1381,7 @@ def work(task):
     t0 = time.process_time()
     gc.freeze()  # gc.collect() steps then only look at objects created from here on (undone below)
     res = {
-        "idx": idx, "spec": spec, "mode": "full" if mode == "full" else "sample",
+        "idx": idx, "spec": spec, "mode": mode if mode in ("full", "gc") else "sample",
         "n": {"cached-equals-fresh": 0, "rows-cached-equals-fresh": 0, "handed-out-unchanged": 0},
         "nontrivial": {"cached-equals-fresh": 0, "rows-cached-equals-fresh": 0, "handed-out-unchanged": 0},
         "fail": {"cached-equals-fresh": [], "rows-cached-equals-fresh": [], "handed-out-unchanged": []},
@@ -1264,8 +1392,15 @@ def work(task):
     seen_sig = {}
     try:
         with _Guard():
-            for h in histories(spec, tier, hist_len, mode, seed):
-                r = evaluate(spec, h, tier)
+            if mode == "gc":
+                source = gc_family(spec, tier)
+            elif mode[0] == "gcsample":
+                gobs = gc_observations(spec, tier)
+                source = ((h, gobs) for h in gc_sampled(spec, tier, hist_len, mode[1], seed))
+            else:
+                source = ((h, None) for h in histories(spec, tier, hist_len, mode, seed))
+            for h, obs in source:
+                r = evaluate(spec, h, tier, obs)
                 for st, en in r["step_exc"]:
                     k = f"{spec_str(spec)}:{st}:{en}"
                     res["step_exc"][k] = res["step_exc"].get(k, 0) + 1
@@ -1285,7 +1420,7 @@ def work(task):
                         continue
                     res["nfail"][cl] += 1
                     if res["nfail"][cl] <= 12:
-                        mini = shrink(spec, h, cl, tier)
+                        mini = shrink(spec, h, cl, tier, obs)
                         sig = signature(spec, mini)
                     else:
                         mini, sig = None, "(not minimised)"
@@ -1295,7 +1430,7 @@ def work(task):
                         res["examples"].setdefault(g, {"tree": spec_str(spec), "minimal_history": [list(map(_j, st)) for st in mini]})
                     if mini is not None and seen_sig.get(g, 0) < 1 and len(res["fail"][cl]) < MAX_FAIL_PER_TREE:
                         seen_sig[g] = seen_sig.get(g, 0) + 1
-                        res["fail"][cl].append(_detail(spec, h, cl, r, mini, tier))
+                        res["fail"][cl].append(_detail(spec, h, cl, r, mini, tier, obs))
             if do_final:
                 res["final"] = finalized_cases(spec)
     finally:
@@ -1328,6 +1463,8 @@ def run(tier="quick", seed=0):
 
     def cost(t):  # rough size of a plan, only used to start the big ones first
         n = len(alphabet(t[1], t[2]))
+        if t[4] == "gc":
+            return n * (12 if t[2] == "quick" else 120)
         return n ** t[3] if t[4] == "full" else t[4][1] * 3
 
     order = sorted(tasks, key=cost, reverse=True)
@@ -1344,19 +1481,26 @@ def run(tier="quick", seed=0):
 
     ntrees = len(seen_tree)
     if tier == "quick":
-        scope = "all 12 leaves alone (histories <= 3 steps, exhaustive), all 204 root+leaf trees (<= 2 steps exhaustive; 100 seeded 3-step histories on one tree per root kind), 1 seeded root+middle+leaf tree per middle kind (<= 2 steps exhaustive)"
+        scope = "all 12 leaves alone (histories <= 3 steps, exhaustive), all 204 root+leaf trees (<= 2 steps exhaustive; 100 seeded 3-step histories on one tree per root kind), 1 seeded root+middle+leaf tree per middle kind (<= 2 steps exhaustive); sampled-histories also: 12 seeded 7-step histories per root+leaf tree over the garbage-collection alphabet (renders incl. a vertical resize, 3 ways of dropping held canvases + gc.collect(), mutators of non-root nodes, keys, mouse)"
     else:
-        scope = "all 12 leaves alone (<= 3 steps exhaustive over the full alphabet, 3000 seeded 4-step), all 204 root+leaf trees (<= 2 steps full alphabet exhaustive; 3 steps over the reduced alphabet exhaustive on a set covering every root and leaf kind, 250 seeded on the others; 80 seeded 4-step), 150 seeded depth-2 trees (<= 2 exhaustive, 150 seeded 3-step) and 100 seeded depth-3 trees (<= 2 exhaustive, 100 seeded 4-step)"
+        scope = "all 12 leaves alone (<= 3 steps exhaustive over the full alphabet, 3000 seeded 4-step), all 204 root+leaf trees (<= 2 steps full alphabet exhaustive; 3 steps over the reduced alphabet exhaustive on a set covering every root and leaf kind, 250 seeded on the others; 80 seeded 4-step), 150 seeded depth-2 trees (<= 2 exhaustive, 150 seeded 3-step) and 100 seeded depth-3 trees (<= 2 exhaustive, 100 seeded 4-step); sampled-histories also: 80 seeded 8-step histories per root+leaf tree over the garbage-collection alphabet (renders incl. a vertical resize, 3 ways of dropping held canvases + gc.collect(), every mutator, keys, mouse)"
     bound = (
         f"{len(KINDS)} widget kinds ({len(LEAVES)} leaves, {len(INNER)} decorations/containers) in chain-shaped trees with fixed siblings, {ntrees} trees: {scope}; "
         "steps = render(2 sizes x focus) / rows / every public mutator of every node / keys and mouse at the root / drop held canvases + gc.collect(); "
         f"each history observed at its end by {4 if tier == 'quick' else 5} renders (+{1 if tier == 'quick' else 2} rows for flow roots) in two runs (cache as-is / CanvasCache.clear() first)"
     )
+    gc_bound = (
+        "garbage-collection family on " + ("every root+leaf tree and the depth-2 trees above" if tier == "quick" else "every leaf alone, every root+leaf tree (thorough family) and the seeded depth-2/3 trees above (quick family)")
+        + ": [render A, (edit1,) render B, drop held canvases + gc.collect(), edit2] observed by render B, render A (+rows at B for flow roots) in two runs; "
+        "A->B changes the root's cache key and keeps that of descendants: focus flip at one size, other width, vertical resize (box roots: (10,6)->(10,7)); "
+        + ("4 key pairs, drop = all but the latest canvas, edits = every mutator of every non-root node (+3 keys, 1 mouse press for the 4-step form), edit2 = edit1 again" if tier == "quick"
+           else "10 key pairs (7 for flow roots), drop in {all but the latest, all but the first, all}, edits = every mutator of every node (+5 keys, 3 mouse presses for the 4-step form), edit2 in {edit1 again, first mutator of the same node}")
+    )
     checks = {}
     for cl in ("cached-equals-fresh", "rows-cached-equals-fresh", "handed-out-unchanged"):
-        for mode in ("full", "sample"):
-            name = f"{ID}/{cl}" + ("" if mode == "full" else "/sampled-histories")
-            c = Check(name, RULES[cl], mode == "full", bound)
+        for mode in ("full", "sample", "gc"):
+            name = f"{ID}/{cl}" + {"full": "", "sample": "/sampled-histories", "gc": "/gc-histories"}[mode]
+            c = Check(name, RULES[cl], mode != "sample", gc_bound if mode == "gc" else bound)
             c.t0 = t_start
             c.nontrivial = _Counted()
             c.groups = {}
@@ -1428,7 +1572,8 @@ def replay(check_name, case):
         spec = case["tree"]
         hist = [tup(st) for st in case.get("minimal_history") or case["history"]]
         tier = case.get("obs_tier", "thorough")
-        r = evaluate(spec, hist, tier)
+        obs = [tup(ob) for ob in case["observations"]] if case.get("observations") else None
+        r = evaluate(spec, hist, tier, obs)
         if r["trivial"]:
             return {"outcome": "not-reproduced", "detail": {"trivial": True}}
         if clause == "handed-out-unchanged":
@@ -1436,5 +1581,5 @@ def replay(check_name, case):
         else:
             bad = _first_diff(r["render" if clause == "cached-equals-fresh" else "rows"]) is not None
         if bad:
-            return {"outcome": "confirmed", "detail": _detail(spec, hist, clause, r, None, tier)}
+            return {"outcome": "confirmed", "detail": _detail(spec, hist, clause, r, None, tier, obs)}
         return {"outcome": "not-reproduced", "detail": {"history": [list(map(_j, st)) for st in hist]}}
